@@ -406,6 +406,22 @@ func (fr *frame) applyContract(ct *Contract, callee *ssa.Function, sig *types.Si
 		}
 		fr.assume(st, g)
 	}
+	// monitors: specification-only records of the call's verdict
+	for _, mon := range ct.Monitors {
+		g := e.db.Ghosts[mon.Ghost]
+		if g == nil || g.Key == nil {
+			vc.warn("monitor: unknown ghost map %s", mon.Ghost)
+			continue
+		}
+		k, err1 := post.tr(mon.Key)
+		v, err2 := post.tr(mon.Val)
+		if err1 != nil || err2 != nil {
+			vc.warn("monitor %s: %v %v", mon.Text, err1, err2)
+			continue
+		}
+		key := vc.keyGhost(g)
+		vc.set(st, key, fmt.Sprintf("(store %s %s %s)", vc.cur(st, key), k.S, v.S))
+	}
 	// frame obligations of the callee's effects are checked knowing what it ensures
 	// (e.g. that the object whose ghost state it initialised is fresh)
 	fr.deferFrame = false
@@ -804,7 +820,7 @@ func (fr *frame) chanEvent(ch ssa.Value, x ssa.Value, st *State) {
 
 // unframedGhost: bookkeeping ghosts that are not part of any function's frame
 // (mutex typestate, channel send counters).
-var unframedGhost = map[string]bool{"G:locked": true, "G:lockcount": true}
+var unframedGhost = map[string]bool{"G:locked": true, "G:lockcount": true, "G:guard_path": true, "G:guard_id": true}
 
 func (fr *frame) frameGhostWhole(key string, st *State) {
 	e := fr.enc
